@@ -310,6 +310,11 @@ fn mode2(l: usize, tmo: Duration, r_n: u64, drv: u64, specs: Vec<(u64, bool, u64
         .thread_pool_recv_timeout(tmo);
     // one pool for every proactor built from this builder (what compio-dispatcher does)
     builder.force_reuse_thread_pool();
+    if specs.len() % 2 == 0 {
+        // a tiny ring / event capacity: the jobs below are all pushed before the first poll, so
+        // more results than `capacity` wait for the driver while it is still pushing
+        builder.capacity(2);
+    }
     verif::start();
     let failed = Arc::new(AtomicU64::new(0));
     let mut hs = vec![];
